@@ -102,12 +102,17 @@ type event struct {
 	Commit  string `json:"commit,omitempty"`   // TryCommit's commit / Result's argument
 	Dead    bool   `json:"dead,omitempty"`     // operation on a workspace that was already destroyed
 	Attempt int    `json:"attempt"`            // number of GetChangeOps calls on this VCS so far
+	Tick    int    `json:"tick,omitempty"`     // lockstep groups: the scheduler's turn number at which this was logged
 }
 
 func (e event) String() string {
 	s := fmt.Sprintf("%d:v%d.%s", e.Seq, e.VCS, e.Ev)
 	if e.WS != 0 {
-		s += fmt.Sprintf("(ws%d", e.WS)
+		if e.WS < 0 {
+			s += fmt.Sprintf("(WORKSPACE-OF-EARLIER-SUBMISSION#%d ws%d", -e.WS/1000, -e.WS%1000)
+		} else {
+			s += fmt.Sprintf("(ws%d", e.WS)
+		}
 		if e.Path != "" {
 			s += " " + e.Path
 		}
@@ -128,15 +133,22 @@ func (e event) String() string {
 	if e.Dead {
 		s += "[DEAD-WS]"
 	}
+	if e.Tick != 0 {
+		s += fmt.Sprintf("@turn%d", e.Tick)
+	}
 	return s
 }
 
 type recorder struct {
-	mu  sync.Mutex
-	log []event
+	mu   sync.Mutex
+	log  []event
+	tick func() int // lockstep groups: the scheduler's turn counter (nil elsewhere)
 }
 
 func (r *recorder) add(e event) {
+	if r.tick != nil {
+		e.Tick = r.tick()
+	}
 	r.mu.Lock()
 	e.Seq = len(r.log) + 1
 	r.log = append(r.log, e)
@@ -160,6 +172,13 @@ type vcs struct {
 	ctl      *ctxCtl      // scripted context of the submission (nil: the context never becomes done)
 	cancelAt *cancelPoint // where this back end makes the context done (nil: nowhere)
 	honour   bool         // a back end that refuses every operation that STARTS after the context is done
+
+	// kept-value sequences (seq.go): the same back-end value serves several submissions one after
+	// the other; sub numbers them, a workspace remembers the submission it was obtained in.
+	sub int
+	// lockstep groups (conc.go): called at the start of every operation the repository performs on
+	// this back end; it blocks until the deterministic scheduler gives this submission the turn.
+	turn func()
 
 	attempt int
 	head    map[string][]byte // replaced, never mutated, on every commit
@@ -234,6 +253,7 @@ func (v *vcs) writerCommit() {
 
 // GetChangeOps implements endorse.VersionControl.
 func (v *vcs) GetChangeOps(context.Context) (endorse.ChangeOps, error) {
+	v.yield()
 	v.attempt++
 	o := v.cur()
 	if err := v.ctxGate("get", 1, "GetChangeOps"); err != nil {
@@ -248,7 +268,7 @@ func (v *vcs) GetChangeOps(context.Context) (endorse.ChangeOps, error) {
 		v.rec.add(event{VCS: v.id, Ev: "get", Err: err.Error(), Class: o.Class, Attempt: v.attempt})
 		return nil, err
 	}
-	ws := &workspace{v: v, id: v.attempt, baseRev: v.rev, base: v.head, over: map[string][]byte{}, count: map[string]int{}}
+	ws := &workspace{v: v, id: v.attempt, sub: v.sub, baseRev: v.rev, base: v.head, over: map[string][]byte{}, count: map[string]int{}}
 	v.wsList = append(v.wsList, ws)
 	v.rec.add(event{VCS: v.id, Ev: "get", WS: ws.id, Attempt: v.attempt})
 	return ws, nil
@@ -256,6 +276,7 @@ func (v *vcs) GetChangeOps(context.Context) (endorse.ChangeOps, error) {
 
 // RetriableError implements endorse.VersionControl.
 func (v *vcs) RetriableError(err error) bool {
+	v.yield()
 	var ve *vcsErr
 	ans := errors.As(err, &ve) && ve.Class == clsRetriable
 	txt := "<nil>"
@@ -268,6 +289,7 @@ func (v *vcs) RetriableError(err error) bool {
 
 // Result implements endorse.VersionControl.
 func (v *vcs) Result(commit any, endorsementPath string) {
+	v.yield()
 	v.rec.add(event{VCS: v.id, Ev: "result", Commit: fmt.Sprint(commit), Path: endorsementPath, Attempt: v.attempt})
 }
 
@@ -278,6 +300,7 @@ func (v *vcs) ReleasePath(_ context.Context, p string) string { return path.Join
 type workspace struct {
 	v         *vcs
 	id        int
+	sub       int // the submission (of a kept back-end value) this workspace was obtained in
 	baseRev   int
 	base      map[string][]byte
 	over      map[string][]byte
@@ -290,8 +313,9 @@ type workspace struct {
 // Faults only fire for the attempt that owns the workspace (a stale workspace used during a
 // later attempt is reported by the oracle, not by injected errors).
 func (w *workspace) fault(kind, op string) error {
+	w.v.yield()
 	w.count[kind]++
-	if w.v.attempt == w.id {
+	if w.mine() && w.v.attempt == w.id {
 		if err := w.v.ctxGate(kind, w.count[kind], op); err != nil {
 			return err
 		}
@@ -300,14 +324,14 @@ func (w *workspace) fault(kind, op string) error {
 		return &vcsErr{VCS: w.v.id, Attempt: w.v.attempt, Op: op + " on destroyed workspace", Class: clsPermanent}
 	}
 	o := w.v.cur()
-	if w.v.attempt == w.id && o.Kind == kind && o.Class != clsNone && (o.Nth == w.count[kind] || kind == "commit") {
+	if w.mine() && w.v.attempt == w.id && o.Kind == kind && o.Class != clsNone && (o.Nth == w.count[kind] || kind == "commit") {
 		return &vcsErr{VCS: w.v.id, Attempt: w.v.attempt, Op: fmt.Sprintf("%s#%d", op, w.count[kind]), Class: o.Class}
 	}
 	return nil
 }
 
 func (w *workspace) ev(name, p string, err error) {
-	e := event{VCS: w.v.id, Ev: name, WS: w.id, Path: p, Dead: w.destroyed > 0 && name != "destroy", Attempt: w.v.attempt}
+	e := event{VCS: w.v.id, Ev: name, WS: w.wsID(), Path: p, Dead: w.destroyed > 0 && name != "destroy", Attempt: w.v.attempt}
 	if err != nil {
 		e.Err = err.Error()
 		var ve *vcsErr
@@ -376,6 +400,7 @@ func (w *workspace) SetBinaryWritable(_ context.Context, p string) error {
 func (w *workspace) IsNotFound(err error) bool { return errors.Is(err, fs.ErrNotExist) }
 
 func (w *workspace) Destroy() {
+	w.v.yield()
 	w.destroyed++
 	w.ev("destroy", "", nil)
 }
@@ -385,7 +410,7 @@ func (w *workspace) TryCommit(context.Context) (any, error) {
 		w.ev("commit", "", err)
 		return nil, err
 	}
-	if w.v.attempt == w.id && w.v.cur().Writer == wrMid && w.count["commit"] == 1 {
+	if w.mine() && w.v.attempt == w.id && w.v.cur().Writer == wrMid && w.count["commit"] == 1 {
 		w.v.writerCommit()
 	}
 	if w.v.rev != w.baseRev {
@@ -405,7 +430,7 @@ func (w *workspace) TryCommit(context.Context) (any, error) {
 	w.baseRev = -1 // a second commit from the same workspace conflicts
 	w.committed = true
 	id := fmt.Sprintf("vcs%d@r%d", w.v.id, w.v.rev)
-	w.v.rec.add(event{VCS: w.v.id, Ev: "commit", WS: w.id, Commit: id, Attempt: w.v.attempt})
+	w.v.rec.add(event{VCS: w.v.id, Ev: "commit", WS: w.wsID(), Commit: id, Attempt: w.v.attempt})
 	return id, nil
 }
 
@@ -494,4 +519,54 @@ func (v *vcs) ctxGate(kind string, nth int, op string) error {
 		v.rec.add(event{VCS: v.id, Ev: "ctx-done", Path: fmt.Sprintf("during %s#%d", kind, nth), Attempt: v.attempt})
 	}
 	return nil
+}
+
+// ---- kept back-end values and lockstep (used by seq.go / conc.go) ----
+
+func (v *vcs) yield() {
+	if v.turn != nil {
+		v.turn()
+	}
+}
+
+// mine says whether the workspace was obtained in the submission that is running now.
+func (w *workspace) mine() bool { return w.sub == w.v.sub }
+
+// wsID is the workspace number used in the call log: the attempt number it was obtained in, or a
+// negative number for a workspace that an EARLIER submission on the same back-end value obtained
+// (the oracle then sees an operation outside any attempt / on a stale workspace).
+func (w *workspace) wsID() int {
+	if w.mine() {
+		return w.id
+	}
+	return -(w.sub*1000 + w.id)
+}
+
+// nextSubmission prepares a kept back-end value for another submission: the committed head stays,
+// the per-submission bookkeeping (attempt counter, script, call log, what must survive) starts
+// again. Every manifest entry on the head must survive the submission except an entry with the
+// submission's own path or digest, which the run may legitimately rewrite (C13's subject).
+func (v *vcs) nextSubmission(rec *recorder, s script, ownPath string, ownDigest []byte) (usable bool) {
+	v.sub++
+	v.rec, v.script, v.attempt = rec, s, 0
+	v.wsList, v.written, v.initial = nil, nil, nil
+	v.ctl, v.cancelAt, v.honour = nil, nil, false
+	if v.manifest == "" {
+		return true
+	}
+	b, ok := v.head[v.manifest]
+	if !ok {
+		return true
+	}
+	m := &rpb.VMEndorsementMap{}
+	if err := prototext.Unmarshal(b, m); err != nil {
+		return false // the submission that committed it has been reported (committed-manifest-unparsable)
+	}
+	for _, e := range m.Entries {
+		if e.Path == ownPath || string(e.Digest) == string(ownDigest) {
+			continue
+		}
+		v.initial = append(v.initial, e)
+	}
+	return true
 }
